@@ -34,6 +34,35 @@ func init() {
 		err := json.Unmarshal([]byte(core.MustUnHex(a[0])), &v)
 		return showParsed(v, err)
 	}
+	// law: a JSON string is a JSON string however it is spelled: the same version text with some
+	// characters written as \uXXXX escapes decodes to the same value (directly and as a struct field)
+	versionImpl["law-verjson-esc"] = func(a []string) string {
+		s := core.MustUnHex(a[0])
+		plain, _ := json.Marshal(s)
+		var esc strings.Builder
+		esc.WriteByte('"')
+		for i, c := range []byte(s) {
+			if c < 0x80 && (c == '+' || c == '~' || c == ':' || c == '-' || c == '.' || (i+len(s))%3 == 0) {
+				fmt.Fprintf(&esc, "\\u%04x", c)
+			} else if c < 0x20 || c == '"' || c == '\\' || c >= 0x80 {
+				return "ok" // keep to text that needs no escaping of its own
+			} else {
+				esc.WriteByte(c)
+			}
+		}
+		esc.WriteByte('"')
+		var v1, v2 version.Version
+		e1, e2 := json.Unmarshal(plain, &v1), json.Unmarshal([]byte(esc.String()), &v2)
+		if (e1 == nil) != (e2 == nil) || v1 != v2 {
+			return fmt.Sprintf("FAIL %s decodes to %v (%v), the same string spelled %s to %v (%v)", plain, v1, e1, esc.String(), v2, e2)
+		}
+		var f1, f2 struct{ V version.Version }
+		e1, e2 = json.Unmarshal([]byte(`{"V":`+string(plain)+`}`), &f1), json.Unmarshal([]byte(`{"V":`+esc.String()+`}`), &f2)
+		if (e1 == nil) != (e2 == nil) || f1 != f2 {
+			return fmt.Sprintf("FAIL as a struct field %s decodes to %v (%v), spelled %s to %v (%v)", plain, f1.V, e1, esc.String(), f2.V, e2)
+		}
+		return "ok"
+	}
 	// law: every rendering of an accepted string parses back to the same value
 	versionImpl["law-verrt"] = func(a []string) string {
 		s := core.MustUnHex(a[0])
@@ -337,6 +366,7 @@ func streamVerparse(g *core.G) {
 			js = r.Pick([]string{s, `"` + s, s + `"`, `""`, `1`, `" ` + s + ` "`})
 		}
 		g.Emit("verjson", core.Hex(js))
+		g.Emit("law-verjson-esc", core.Hex(s))
 	}
 	if g.Thorough {
 		const small = "01a:-~ +"
@@ -416,7 +446,7 @@ func streamVerlaws(g *core.G) {
 
 func versionReadable2(op string, a []string) string {
 	switch op {
-	case "verparse", "law-verrt", "verjson":
+	case "verparse", "law-verrt", "verjson", "law-verjson-esc":
 		return fmt.Sprintf("%s(%q)", op, core.MustUnHex(a[0]))
 	case "verstr", "verstr0":
 		return op + showVer(a)
